@@ -659,13 +659,20 @@ func (g *gen) instTMap(path []pstep, untagged bool) reflect.Value {
 	g.hasTM = true
 	id := g.canary() + "-id"
 	m := TMap{"__id": id}
-	tags := []encrypt.PointerTag{{Pointer: "/__id", Classification: encrypt.PublicClassification}}
+	var tags []encrypt.PointerTag
 	n := g.r.Range(0, 4)
 	adj := func(e Expect) Expect {
 		if untagged {
 			return weaken(e)
 		}
 		return e
+	}
+	if g.r.Intn(4) > 0 {
+		tags = append(tags, encrypt.PointerTag{Pointer: "/__id", Classification: encrypt.PublicClassification})
+	} else {
+		// no tag for the id entry: it is an unclassified value like any other, and the map may end up with no
+		// pointer tag that addresses one of its own keys at all (only nested ones, absent ones, or none)
+		g.leaves = append(g.leaves, leaf{Path: cp(cp(path, pstep{K: 'M', Key: "__id"}), pstep{K: 'E'}), Canary: id, Exp: adj(g.cfg.classify(false, "", ""))})
 	}
 	for i := 0; i < n; i++ {
 		key := fmt.Sprintf("t%d", i)
